@@ -21,7 +21,6 @@ import (
 	"connectrpc.com/conformance/internal/verifkit"
 )
 
-
 type vfEnv struct {
 	Flags    byte
 	Declared uint32 // declared length == len(Payload) in well-formed bodies
@@ -205,7 +204,6 @@ func vfSigEqual(got, want []string, wildcardAt int) bool {
 	return false
 }
 
-
 func vfClassify(b *vfBody, cut int) string {
 	side := "response"
 	if b.IsRequest {
@@ -360,11 +358,19 @@ func vfDescribeEnvs(b *vfBody) []string {
 // vfFakeWriter is an http.ResponseWriter that records what it is given and
 // can fail after a number of bytes.
 type vfFakeWriter struct {
-	h      http.Header
-	status int
-	body   bytes.Buffer
-	failAt int // <0 never
-	calls  []int
+	h       http.Header
+	status  int
+	body    bytes.Buffer
+	failAt  int // <0 never
+	calls   []int
+	flushes []string // state of the writer at every Flush it was given
+}
+
+func (f *vfFakeWriter) Flush() {
+	if f.status == 0 {
+		f.status = 200 // net/http commits the header at the first flush
+	}
+	f.flushes = append(f.flushes, fmt.Sprintf("status=%d bytes=%d", f.status, f.body.Len()))
 }
 
 func (f *vfFakeWriter) Header() http.Header { return f.h }
@@ -392,7 +398,7 @@ func (f *vfFakeWriter) Write(p []byte) (int, error) {
 // cut x partition; the handler's view (n, err) and what the real writer
 // receives must be what they would be without tracing.
 func TestVerifC14Writer(t *testing.T) {
-	rep := verifkit.Begin("C14", "writer", "the same envelope sequences written by a handler through TracingHandler to a recording ResponseWriter, partitioned by every plan, complete or failing (short write + error) after every byte offset; headers, status, trailers (declared and TrailerPrefix), bytes and (n, err) compared with the unwrapped run; distinct = (body, fail offset, plan)")
+	rep := verifkit.Begin("C14", "writer", "the same envelope sequences written by a handler through TracingHandler to a recording ResponseWriter, partitioned by every plan, complete or failing (short write + error) after every byte offset; with flushes never / before the first write (headers first) / after every write / both; headers, status, trailers (declared and TrailerPrefix), bytes, flush moments and (n, err) compared with the unwrapped run; distinct = (body, fail offset, plan)")
 	defer rep.Write()
 	rng := verifkit.Stream("c14writer")
 	n := verifkit.Scale(150, 5000)
@@ -411,6 +417,7 @@ func TestVerifC14Writer(t *testing.T) {
 	rep.Sample(map[string]any{"proto": "grpc-web", "envelopes": "[flags=0 len=6][flags=0x81 trailers compressed]", "fail_after": 8, "expect": "data#0 ... seen=3 partial, one body-end with error; handler sees (3, closed pipe)"})
 	rep.RequireMin("writer_failures_injected", 50)
 	rep.RequireMin("writer_complete", 50)
+	rep.RequireMin("flush_mode_1", 20)
 }
 
 func vfRunWriter(rep *verifkit.Report, rng *verifkit.Rand, body *vfBody, failAt int, planName string, plan []int) {
@@ -419,6 +426,11 @@ func vfRunWriter(rep *verifkit.Report, rng *verifkit.Rand, body *vfBody, failAt 
 	w := map[string]any{"proto": body.Proto, "encoding": body.Encoding, "envelopes": vfDescribeEnvs(body), "stream_len": len(body.Stream), "fail_after_bytes": failAt, "plan": planName}
 	rep.InFlight(w)
 	status := verifkit.Pick(rng, []int{0, 200, 200, 404, 500})
+	flushMode := rng.Intn(4) // 0 never; 1 once, before anything was written (headers first); 2 after every write; 3 both
+	if flushMode == 1 || flushMode == 3 {
+		status = verifkit.Pick(rng, []int{0, 200})
+	}
+	w["flush_mode(0=never,1=before first write,2=after every write,3=both)"] = flushMode
 	type wr struct {
 		N   int
 		Err bool
@@ -448,6 +460,14 @@ func vfRunWriter(rep *verifkit.Report, rng *verifkit.Rand, body *vfBody, failAt 
 			rw.Header().Set("X-Custom", "v1")
 			rw.Header().Add("X-Custom", "v2")
 			rw.Header().Set("Trailer", "X-Declared-Trailer")
+			flush := func() {
+				if f, ok := rw.(http.Flusher); ok {
+					f.Flush()
+				}
+			}
+			if flushMode == 1 || flushMode == 3 {
+				flush() // headers first: the peer sees them before any body byte exists
+			}
 			if status != 0 {
 				rw.WriteHeader(status)
 			}
@@ -466,6 +486,9 @@ func vfRunWriter(rep *verifkit.Report, rng *verifkit.Rand, body *vfBody, failAt 
 				*log = append(*log, wr{wn, err != nil})
 				if err != nil {
 					return
+				}
+				if flushMode >= 2 {
+					flush()
 				}
 				data = data[n:]
 			}
@@ -515,6 +538,11 @@ func vfRunWriter(rep *verifkit.Report, rng *verifkit.Rand, body *vfBody, failAt 
 	if !reflect.DeepEqual(plainLog, tracedLog) {
 		rep.Violation("body/writer/results-altered", fmt.Sprintf("handler saw write results %v with tracing, %v without", tracedLog, plainLog), w)
 	}
+	if !reflect.DeepEqual(plain.flushes, traced.flushes) {
+		w["flushes_without_tracing"], w["flushes_with_tracing"] = plain.flushes, traced.flushes
+		rep.Violation(fmt.Sprintf("body/writer/flush-altered/mode-%d", flushMode), fmt.Sprintf("the real writer was flushed %d times with tracing, %d without (or at other moments)", len(traced.flushes), len(plain.flushes)), w)
+	}
+	rep.Count(fmt.Sprintf("flush_mode_%d", flushMode), 1)
 	if !reflect.DeepEqual(plain.calls, traced.calls) {
 		rep.Violation("body/writer/partition-altered", "the real writer was called with a different partition of the bytes", w)
 	}
@@ -709,10 +737,10 @@ func TestVerifC14AfterEndStream(t *testing.T) {
 			}
 			head := append(vfEnvelopeC14(0, []byte("data")), vfEnvelopeC14(fl, payload)...)
 			tails := map[string][]byte{
-				"data-message":       vfEnvelopeC14(0, []byte("late data")),
-				"second-end-stream":  vfEnvelopeC14(flag, []byte(`{"second":true}`)),
-				"garbage":            []byte("\x00\x01GARBAGE AFTER THE END"),
-				"nothing":            nil,
+				"data-message":      vfEnvelopeC14(0, []byte("late data")),
+				"second-end-stream": vfEnvelopeC14(flag, []byte(`{"second":true}`)),
+				"garbage":           []byte("\x00\x01GARBAGE AFTER THE END"),
+				"nothing":           nil,
 			}
 			for tname, tail := range tails {
 				body := append(append([]byte(nil), head...), tail...)
